@@ -14,7 +14,7 @@ PROP = dict(
                   'psf2_headersize_rt', 'psf2_unicode_table_rejected', 'toPsf2_is_psf2File', 'psf1_unicode_table_read_as_glyphs',
                   'psf2_wide_font_quirk',
                   'tdf_rt_iff', 'wfTdf_iff', 'tdf_plain_rt', 'tdf_color_rt', 'has_char_table', 'tdf_presence_rt', 'tdf_outside_witnesses',
-                  'embedded_font_is_the_font_of_the_page', 'adf_idf_font_rt_page_partial', 'adf_slot0_height_counterexample',
+                  'embedded_font_is_the_font_of_the_page', 'adf_idf_font_rt_page', 'adf_slot0_height_repaired',
                   'icy_every_slot_has_a_chunk'],
         harness='c17',
         harness_timeout=1500,
@@ -44,11 +44,11 @@ PROP = dict(
                   'glyph bytes) — xb_font_rt is full strength. '
                   'WHICH FONT GOES WHERE (Props/C17Page.lean): embedded_font_is_the_font_of_the_page — for every picture the XBin/ADF/IDF writers '
                   'accept, block i of the file holds the glyph bytes of the font in the slot of the i-th font PAGE IN USE (analyze_font_usage), '
-                  'not of slot i; adf_idf_font_rt_page_partial — ADF/IDF pictures whose cells are on ANY page k: the file is byte for byte '
+                  'not of slot i; adf_idf_font_rt_page (FULL) — ADF/IDF pictures whose cells are on ANY page k: the file is byte for byte '
                   'the file of the page-0 picture toPage0 (nothing the writers read depends on the page number: as_u8, IDF run lengths, 8-bit '
                   'test — proved by induction over rows and the run-length coder), so the font of slot k comes back as slot 0 whatever slot 0 '
-                  'holds, PROVIDED slot 0 holds an 8x16 font too (the writers test get_font_dimensions() = slot 0: findings '
-                  'adf/idf_font_height_of_slot0, kernel-checked witness adf_slot0_height_counterexample); icy_every_slot_has_a_chunk — the '
+                  'holds, of whatever size (the writers test the size of the font they embed since the two repairs; fixed: '
+                  'adf/idf_font_height_of_slot0, kernel-checked former counterexample adf_slot0_height_repaired); icy_every_slot_has_a_chunk — the '
                   'IcyDraw writer emits FONT_k for every slot, no condition on the font (built-in default in slot 5 included). '
                   'tools/gens/fontslot.py pins the 16 source sites of the indirection. '
         'Differential correspondence (bytes hashed) ties writers and readers to the models on in-domain, boundary and damaged '
@@ -98,7 +98,7 @@ PROP = dict(
                  'invoke_macro_by_id (depth 8, budget 65536); execute_dcs, parse_macro, parse_macro_sequence, parse_hex_macro_sequence '
                  '(C01\'s definitions reused), load_custom_font on the recorded string; Buffer::set_font / get_font; BitFont::is_default '
                  '(repaired) as the XBin embedding decision; the page -> slot indirection of the XBin / ADF / IDF writers (analyze_font_usage, '
-                 'get_font(fonts.first()), get_font(fonts[1]), get_font_dimensions() = slot 0) and loaders (block -> slot 0 / 1) for pictures on '
+                 'get_font(fonts.first()), get_font(fonts[1]), the 8x16 test on that font) and loaders (block -> slot 0 / 1) for pictures on '
                  'any page; the FONT_k loop of the IcyDraw writer over every slot',
         not_modelled='XBin LOADER half for pictures on pages other than [0] / [0,1] (C05\'s xb_roundtrip is stated for those; writer half '
                      'embedded_font_is_the_font_of_the_page holds for all pages; the rest is correspondence + oracle); buffers without a font in slot 0 '
